@@ -115,17 +115,30 @@ def canary_run(unit, only=None):
 
 def witness_search(prop, unit, fn, label):
     """look for a concrete failing input on the real compiled code"""
-    cfg = load_json(os.path.join(VERIF, "witness.json"), {})
+    rules = load_json(os.path.join(VERIF, "witness.json"), [])
     key = "%s::%s" % (fn, label)
-    ent = cfg.get(key) or cfg.get(label)
-    if not ent:
+    tried = []
+    for rule in rules:
+        m = re.search(rule["match"], key)
+        if not m:
+            continue
+        for tmpl in rule["cmds"]:
+            cmd = tmpl
+            for i, g in enumerate(m.groups(), 1):
+                cmd = cmd.replace("{%d}" % i, g or "")
+            try:
+                p = subprocess.run(cmd, shell=True, cwd=VERIF, capture_output=True, text=True,
+                                   timeout=rule.get("timeout", 1200))
+                ent = dict(cmd=cmd, rc=p.returncode, stdout=p.stdout[-4000:], stderr=p.stderr[-1000:])
+            except Exception as e:
+                ent = dict(cmd=cmd, rc=2, error=str(e))
+            tried.append(ent)
+            if ent.get("rc") == 1:
+                return dict(found=True, cmd=cmd, failing_input=ent["stdout"].strip(), tried=tried)
+        break
+    if not tried:
         return None
-    try:
-        p = subprocess.run(ent["cmd"], shell=True, cwd=VERIF, capture_output=True, text=True, timeout=ent.get("timeout", 900))
-        return dict(cmd=ent["cmd"], rc=p.returncode, stdout=p.stdout[-4000:], stderr=p.stderr[-2000:],
-                    found=(p.returncode == 1))
-    except Exception as e:
-        return dict(cmd=ent["cmd"], error=str(e), found=False)
+    return dict(found=False, tried=tried)
 
 
 def main(argv):
@@ -295,7 +308,8 @@ def replay(prop, path):
     d = json.load(open(path))
     print(json.dumps(d, indent=1)[:4000])
     w = d.get("witness")
-    if w and w.get("cmd"):
+    if w and w.get("found") and w.get("cmd"):
+        print("re-running the witness on the current tree: %s" % w["cmd"])
         p = subprocess.run(w["cmd"], shell=True, cwd=VERIF)
         return p.returncode
     # re-run the check; the obligation must still fail
